@@ -12,7 +12,9 @@ Sub-checks (the `check` field): entry (the transformation call itself), initial 
 right after the transformation), flags (parameter flag moved, original keeps no
 distribution), value (original == b(t) after every assignment), logprob (new variable's
 log-density, Model.log_prob / log_prior / log_lik), params (model-dependent arguments
-take effect on assignment), raises (liesel raised while the transformed model was used).
+take effect on assignment), raises (liesel raised while the transformed model was used),
+chain (the new variable is transformed a second time; the innermost variable is walked and
+the reference composes both bijectors and both Jacobians).
 An exception counts as a violation only if mc.core.raised_in_repo() attributes it to liesel.
 """
 
@@ -35,12 +37,13 @@ RULE = (
     "reaches x only as an input; all four for auto_transform, a sub-grid for the other entries in quick} x "
     "{scalar, vector(3)} x per_obs {on, off} x parameter flag {set, not set}; per case a lattice of 7 "
     "(thorough 13) unconstrained values is walked by assignment in the built model, then every parameter "
-    "variable is re-assigned. Distinct outcome = (entry, option kind, parameter kind, shape/per_obs/flag, step kind, sign of log-density)."
+    "variable is re-assigned; plus chained (double) transformations walked by the innermost variable. Distinct outcome = (entry, option kind, parameter kind, shape/per_obs/flag, step kind, sign of log-density)."
 )
 ASSUMPTIONS = [
     "TFP's base densities and bijectors are trusted as such, but every number is compared with an independent scipy/closed-form float64 reference, so a wrong use (Invert dropped, forward/inverse swapped, wrong arguments) shows",
     "TFP's default event-space bijectors are taken from its documentation (HalfCauchy: loc+exp, InverseGamma: 1/softplus, Gamma/HalfNormal/Exponential: softplus, LogNormal: exp, Beta: sigmoid, Uniform/TruncatedNormal: sigmoid scaled to [low, high], Normal: identity)",
     "float32 model against float64 reference: values within 2e-5 relative, log-densities within 2e-4 x (1 + |log p| + |log b'|) per element",
+    "chained transformations (x.transform(b1) followed by x_transformed.transform(b2), b2 in {Scale(2.0) instance, Shift(shift=-0.5) class}) are enumerated for the three Var.transform entry points with constant parameters, in built models and without a model (update() by hand); chains that start with the deprecated GraphBuilder.transform are NOT enumerated (they fail on the current tree: _transform_back wires the original to the new variable's value node - reported separately)",
     "lattice points only: nothing is said about values between them; one (thorough: two) parameter settings per family plus one re-assignment per parameter variable",
 ]
 
@@ -110,6 +113,31 @@ def styles(entry, pk, tier):
     return ["add(x)"]
 
 
+# second transformation applied to the new variable (chained transformations)
+SECONDS = {
+    "inst:Scale(2.0)": ("inst", "Scale", {"scale": 2.0}),
+    "cls:Shift(shift=-0.5)": ("cls", "Shift", {"shift": -0.5}),
+}
+U_QUICK = (-1.5, -0.25, 0.0, 0.5, 1.5)
+U_THOROUGH = (-3.0, -1.5, -0.25, 0.0, 0.1, 0.5, 1.5, 3.0)
+
+
+def chain_cases(opt, tier):
+    """(entry, second, style, shape, per_obs, flag) for the chained transformations."""
+    entries = [e for e in ENTRIES[opt[0]] if e.startswith("Var.transform")]
+    seconds = ["inst:Scale(2.0)", "cls:Shift(shift=-0.5)"]
+    out = []
+    for e in entries:
+        for sec in seconds:
+            if tier == "quick":
+                out += [(e, sec, "add(x)", "scalar", True, True), (e, sec, "Model([x])", "vec3", False, False), (e, sec, "no-model", "vec3", True, True)]
+            else:
+                for style in ("add(x)", "add(sink)", "Model([x])", "Model([sink])", "no-model"):
+                    for shp, po, fl in (("scalar", True, True), ("scalar", True, False), ("vec3", True, True), ("vec3", False, False)):
+                        out.append((e, sec, style, shp, po, fl))
+    return out
+
+
 SECOND_PARAMS = {  # thorough: a second parameter setting per family
     "LogNormal": {"loc": -1.0, "scale": 0.25}, "HalfCauchy": {"loc": 0.0, "scale": 0.4}, "InverseGamma": {"concentration": 1.5, "scale": 4.0},
     "Gamma": {"concentration": 0.7, "rate": 3.0}, "HalfNormal": {"scale": 0.3}, "Exponential": {"rate": 5.0}, "HalfCauchyLoc": {"loc": -2.0, "scale": 1.0},
@@ -126,6 +154,8 @@ def bounds(tier):
         "build_styles": {"auto_transform": list(STYLES), "other entry points": "add(x) always; add(sink) / Model([x]) / Model([sink]) on a sub-grid (quick) or all (thorough)"},
         "shape_perobs_flag": [list(c) for c in combos(tier)],
         "t_lattice": list(T_QUICK if tier == "quick" else T_THOROUGH),
+        "chained_transformations": {"second": ["inst:Scale(2.0)", "cls:Shift(shift=-0.5)"], "first": "every Var.transform entry of every (family, option)", "u_lattice": list(U_QUICK if tier == "quick" else U_THOROUGH),
+                                    "styles": ["add(x)", "Model([x])", "no-model"] if tier == "quick" else ["add(x)", "add(sink)", "Model([x])", "Model([sink])", "no-model"]},
         "parameter_settings_per_family": 1 if tier == "quick" else 2,
     }
 
@@ -232,18 +262,19 @@ def build(case, spec, opt, params0):
         sink = lsl.obs(jnp.asarray(np.asarray(SINK_Y, dtype=np.float32)), lsl.Dist(tfd.Normal, loc=x, scale=SINK_SCALE), name="y")
 
     def do_entry():
+      tv = None
       with warnings.catch_warnings():
         warnings.simplefilter("ignore")
         if entry == "Var.transform(instance)":
-            x.transform(make_bijector(tfb, liesel_bij, bname, bkw))
+            tv = x.transform(make_bijector(tfb, liesel_bij, bname, bkw))
         elif entry == "Var.transform(cls,**args)":
-            x.transform(bijector_class(tfb, liesel_bij, bname), **bargs)
+            tv = x.transform(bijector_class(tfb, liesel_bij, bname), **bargs)
         elif entry == "Var.transform(cls,*args)":  # positional, in the order of the bijector's signature
-            x.transform(bijector_class(tfb, liesel_bij, bname), *bargs.values())
+            tv = x.transform(bijector_class(tfb, liesel_bij, bname), *bargs.values())
         elif entry == "GraphBuilder.transform(cls,*args)":
             gb.transform(x, bijector_class(tfb, liesel_bij, bname), *bargs.values())
         elif entry == "Var.transform(None)":
-            x.transform(None)
+            tv = x.transform(None)
         elif entry == "auto_transform":
             x.auto_transform = True
         elif entry == "GraphBuilder.transform(instance)":
@@ -254,6 +285,15 @@ def build(case, spec, opt, params0):
             gb.transform(x)
         else:
             raise ValueError(entry)
+        if case.get("second"):
+            # chained transformation: the new (strong, distributed) variable is transformed again
+            kind2, name2, kw2 = SECONDS[case["second"]]
+            if kind2 == "inst":
+                tv2 = tv.transform(make_bijector(tfb, liesel_bij, name2, kw2))
+            else:
+                tv2 = tv.transform(bijector_class(tfb, liesel_bij, name2), **kw2)
+            if style == "no-model":
+                return (x, tv, tv2)
         top = sink if sink is not None else x
         if style.startswith("Model("):
             return lsl.Model([top])
@@ -428,6 +468,116 @@ def _after_build(res, rec, case, spec, opt, params0, lattice, model, dist_vars, 
     return walk
 
 
+def run_chain_case(res, rec, case, spec, opt, params0, lattice):
+    """x --b1--> x_transformed --b2--> x_transformed_transformed (innermost, strong)."""
+    kind, bname, bkw, _ = opt
+    sigbase = f"{case['family']}/{kind}:{bname or 'default'}/{case['entry']}+{case['second']}/{case['style']}"
+    do_entry, _, _ = build(case, spec, opt, params0)
+    try:
+        obj = do_entry()
+    except Exception as e:  # noqa: BLE001
+        if not core.raised_in_repo(e, transparent=("do_entry", "run_chain_case")):
+            raise
+        rec.fail("chain", f"{sigbase}:raises-{type(e).__name__}", case, f"{sigbase}: transforming the new variable a second time / building the model raised {type(e).__name__}: {str(e)[:300]}")
+        res.transitions += 1
+        return
+    res.transitions += 3
+    try:
+        _after_chain(res, rec, case, spec, opt, params0, lattice, obj, sigbase)
+    except Exception as e:  # noqa: BLE001
+        if not core.raised_in_repo(e, transparent=("_after_chain", "run_chain_case", "state")):
+            raise
+        rec.fail("chain", f"{sigbase}:raises-{type(e).__name__}", case, f"{sigbase}: liesel raised {type(e).__name__} while the chain was used: {str(e)[:300]}")
+
+
+def _after_chain(res, rec, case, spec, opt, params0, lattice, obj, sigbase):
+    import jax.numpy as jnp
+
+    kind, bname, bkw, _ = opt
+    fam_cls = spec["cls"]
+    model = None
+    if case["style"] == "no-model":
+        ox, mid, inn = obj
+    else:
+        model = obj
+        names = ("x", "x_transformed", "x_transformed_transformed")
+        if any(n not in model.vars for n in names):
+            rec.fail("chain", f"{sigbase}:no-transformed-variable", case, f"{sigbase}: the built model has variables {list(model.vars)}, expected {names}")
+            return
+        ox, mid, inn = (model.vars[n] for n in names)
+    params = {k: float(np.float32(v)) for k, v in params0.items()}
+    b1 = ref.default_bijector(fam_cls, params) if kind == "default" else ref.Bij(bname, **{k: float(np.float32(v)) for k, v in bkw.items()})
+    k2, n2, kw2 = SECONDS[case["second"]]
+    b2 = ref.Bij(n2, **{k: float(np.float32(v)) for k, v in kw2.items()})
+    has_sink = "sink" in case["style"]
+
+    x0 = np.asarray(spec["x0"][0] if case["shape"] == "scalar" else spec["x0"][1], dtype=np.float32).astype(np.float64)
+    t0 = b1.inverse(x0)
+    u0 = b2.inverse(t0)
+    res.states += 1
+    for what, var, want in (("original", ox, x0), ("middle", mid, t0), ("innermost", inn, u0)):
+        got = np.asarray(var.value, dtype=np.float64)
+        if got.shape != want.shape or not np.all(np.abs(got - want) <= 1e-4 * (1 + np.abs(want))):
+            rec.fail("chain", f"{sigbase}:initial-{what}-value", case, f"{sigbase}: after both transformations the {what} variable has value {got.tolist()}, expected {want.tolist()}")
+    flags = (bool(inn.parameter), bool(mid.parameter), bool(ox.parameter), mid.dist_node is None, ox.dist_node is None, bool(mid.weak), bool(ox.weak), bool(inn.strong), bool(inn.has_dist))
+    res.outcome("chain-flags", case["flag"], flags)
+    if flags != (case["flag"], False, False, True, True, True, True, True, True):
+        rec.fail("chain", f"{sigbase}:flags", {**case, "flags": list(flags)},
+                 f"{sigbase}: (innermost.parameter, middle.parameter, original.parameter, middle has no dist, original has no dist, middle weak, original weak, innermost strong, innermost has dist) = {flags}, expected ({case['flag']}, False, False, True, True, True, True, True, True)")
+    if bool(inn.dist_node.per_obs) != case["per_obs"]:
+        rec.fail("chain", f"{sigbase}:per_obs-not-transferred", case, f"{sigbase}: per_obs={inn.dist_node.per_obs} on the innermost distribution")
+
+    shape = () if case["shape"] == "scalar" else (3,)
+    L = list(lattice)
+    assigns = [np.float32(u) for u in L] if shape == () else [np.asarray([L[(3 * i + j) % len(L)] for j in range(3)], dtype=np.float32) for i in range(-(-len(L) // 3))]
+    for i, u32 in enumerate(assigns):
+        inn.value = jnp.asarray(u32)
+        if model is None:  # no model: update downstream by hand, innermost first
+            inn.update()
+            mid.update()
+            ox.update()
+        u = np.asarray(u32, dtype=np.float64)
+        t = b2.forward(u)
+        x = b1.forward(t)
+        base = ref.base_logpdf(fam_cls, x, params)
+        ld = b1.logdet(t) + b2.logdet(u)
+        lp_el = base + ld
+        tol_el = LP_RTOL * (1 + np.abs(base) + np.abs(b1.logdet(t)) + np.abs(b2.logdet(u)))
+        cs = {**case, "u": u.tolist()}
+        res.states += 1
+        res.transitions += 1
+        gm = np.asarray(mid.value, dtype=np.float64)
+        gx = np.asarray(ox.value, dtype=np.float64)
+        if gm.shape != t.shape or not np.all(np.abs(gm - t) <= VAL_RTOL * (1 + np.abs(t))):
+            rec.fail("chain", f"{sigbase}:middle!=b2(u)", cs, f"{sigbase}: middle variable {gm.tolist()} but b2(u) = {t.tolist()} at u = {u.tolist()}")
+        if gx.shape != x.shape or not np.all(np.abs(gx - x) <= VAL_RTOL * (1 + np.abs(x))):
+            rec.fail("chain", f"{sigbase}:original!=b1(b2(u))", cs, f"{sigbase}: original value {gx.tolist()} but b1(b2(u)) = {x.tolist()} at u = {u.tolist()} (middle variable {gm.tolist()}): the original did not follow the innermost variable")
+        glp = np.asarray(inn.log_prob, dtype=np.float64)
+        want_lp = lp_el if case["per_obs"] else np.sum(lp_el)
+        tol_lp = tol_el if case["per_obs"] else np.sum(tol_el)
+        if glp.shape != np.shape(want_lp) or not np.all(np.abs(glp - want_lp) <= tol_lp):
+            rec.fail("chain", f"{sigbase}:innermost-log_prob", cs, f"{sigbase}: log_prob of the innermost variable at u={u.tolist()} is {glp.tolist()}, log p(b1(b2(u))) + log|b1'| + log|b2'| = {np.asarray(want_lp).tolist()}")
+        for what, var in (("original", ox), ("middle", mid)):
+            olp = var.log_prob
+            if not (np.ndim(olp) == 0 and float(olp) == 0.0):
+                rec.fail("chain", f"{sigbase}:{what}-log_prob-nonzero", cs, f"{sigbase}: {what} variable reports log_prob {olp}")
+        if model is not None:
+            tot = float(np.sum(lp_el))
+            ttol = float(np.sum(tol_el))
+            lik = 0.0
+            if has_sink:
+                ll = ref.base_logpdf("Normal", np.asarray(SINK_Y, dtype=np.float32).astype(np.float64), {"loc": np.broadcast_to(x, (3,)), "scale": SINK_SCALE})
+                lik = float(np.sum(ll))
+                ttol += LP_RTOL * float(np.sum(1 + np.abs(ll)))
+            mlp, mprior = float(model.log_prob), float(model.log_prior)
+            if not abs(mlp - (tot + lik)) <= ttol:
+                rec.fail("chain", f"{sigbase}:Model.log_prob", cs, f"{sigbase}: Model.log_prob = {mlp}, expected {tot + lik} at u={u.tolist()}")
+            if not abs(mprior - (tot if case["flag"] else 0.0)) <= ttol:
+                rec.fail("chain", f"{sigbase}:Model.log_prior", cs, f"{sigbase}: Model.log_prior = {mprior}, expected {tot if case['flag'] else 0.0} at u={u.tolist()}")
+        res.outcome("chain", case["entry"], case["second"], case["style"], case["shape"], case["per_obs"], case["flag"], "lp>0" if float(np.sum(lp_el)) > 0 else "lp<0")
+    res.executions += 1
+
+
 def run_unit(unit):
     core.assert_repo()
     res = core.UnitResult(unit)
@@ -452,4 +602,10 @@ def run_unit(unit):
                     if first:
                         res.sample({**case, "walk": walk})
                     first = False
+    # chained transformations: the new variable is transformed a second time
+    ulat = U_QUICK if tier == "quick" else U_THOROUGH
+    for entry, sec, style, shp, per_obs, flag in chain_cases(opt, tier):
+        case = {"family": unit["family"], "bijector": f"{opt[0]}:{opt[1] or 'default'}{opt[2] or ''}", "entry": entry, "second": sec, "style": style, "paramkind": "const",
+                "shape": shp, "per_obs": per_obs, "flag": flag, "dist_params": params0}
+        run_chain_case(res, rec, case, spec, opt, params0, ulat)
     return res
